@@ -42,12 +42,13 @@ HOOK_COMMITS = [
     "8194c1c verif hook H4 (mux): public wrappers for private H2/pkawa/converter/serializer kernels under --cfg sozu_verif",
     "80728f6 verif hook H4 (router): public wrapper for select_tree_rule under --cfg sozu_verif",
     "7aed797 verif hook H4 (state): public wrapper for diff_map under --cfg sozu_verif",
+    "656ba2e verif hook H5: HttpsProxy::verif_listener accessor under --cfg sozu_verif (replay tests read listener tags)",
 ]
 
 REGISTRY["C11"] = {
-    "technique": "bounded model checking (Kani/CBMC, SAT) of Channel framing + growable Buffer",
+    "technique": "bounded model checking (Kani/CBMC, SAT) of Channel framing + growable Buffer; symbolic execution of the MIR of Channel::writable into SMT (z3 + cvc5) for the would-block readiness protocol",
     "level_text": "CBMC decides, for all byte contents / prefixes / split points within the stated small sizes, that the real Channel::{write_message,read_message} and Buffer code re-frames messages exactly once, in order, intact, classifies malformed prefixes, never panics or indexes out of bounds (incl. the unsafe ptr::copy blocks) and never grows past max_buffer_size. Bounded, not a proof.",
-    "level_note": "Sizes are small and concrete (buffers 8..32 bytes, payloads <= 4 bytes); the socket syscalls are replaced by direct delivery into front_buf; message codec is a 4-byte stand-in. See evidence coverage.bounds / outside_bounds.",
+    "level_note": "Channel::writable (real socket, not Kani-able) is decided by engine M for its readiness protocol only. Sizes are small and concrete (buffers 8..32 bytes, payloads <= 4 bytes); the socket syscalls are replaced by direct delivery into front_buf; message codec is a 4-byte stand-in. See evidence coverage.bounds / outside_bounds.",
     "rule": "C11: one harness per buffer op family / framing scenario.",
     "trusted_base": ["harness message codec `Raw` (≤4 raw bytes, 0xFF-first = undecodable) stands in for prost-generated WorkerRequest/Response"],
     "assumptions": ["the kernel never delivers more bytes than the slice it was given (readable()'s own debug_assert)",
@@ -81,6 +82,7 @@ REGISTRY["C11"] = {
         K("c11::c11_write_grow_bounded_len4", "same, ALL (frames 0..2, drained 0..9*frames) positions enumerated concretely, contents symbolic; unwind 21",
           "as above, every drain offset", CH, tier="thorough"),
         K("c11::c11_write_grow_bounded_len0", "same with an empty payload (8-byte frame)", "as above, empty message", CH, tier="thorough"),
+        M("c11_writable_keeps_interest", "whole Channel::writable (28 blocks), loop unrolled 2x; socket write and buffer calls uninterpreted, Ready bit algebra exact", "WRITABLE interest is dropped only after available_data() == 0 was observed with no write since; a write error that still returns Ok clears the WRITABLE readiness bit", CH + ["command/src/ready.rs"], prop="c11m", which="writable_interest"),
     ],
 }
 
@@ -111,7 +113,7 @@ REGISTRY["C18"] = {
         K("c18::c18_expect_window_v6_one_segment", "52-byte v6 header (all addresses/ports) + 12 payload bytes in one segment", _win, EX, cbmc_args=FS256),
         K("c18::c18_expect_window_v6_split_29", "same, delivered 29 + rest (crosses the 28-byte stage)", _win, EX, cbmc_args=FS256),
         K("c18::c18_expect_window_v4_13_0_15", "v4 header delivered 13 + (empty wake-up) + 15 + payload", _win, EX, cbmc_args=FS256),
-        K("c18::c18_expect_window_three_pieces", "v4: [0,12,4,..] [13,0,15,..] [27,1,..]; v6: [12,16,24] [28,0,24] [51,1,..] incl. empty wake-ups", _win, EX, tier="thorough", cbmc_args=FS256),
+        K("c18::c18_expect_window_three_pieces", "v4: [0,12,4,..] [13,0,15,..] [27,1,..]; v6: [12,16,24] [28,0,24] [51,1,..] incl. empty wake-ups", _win, EX, cbmc_args=FS256),
         K("c18::c18_expect_window_v4_all_cuts", "v4 header cut at every position 0..28", _win, EX, tier="thorough", cbmc_args=FS256),
         K("c18::c18_expect_window_v6_boundary_cuts", "v6 header cut at {0,1,12,13,16,27,28,29,40,51,52}", _win, EX, tier="thorough", cbmc_args=FS256),
         K("c18::c18_expect_bad_signature_first_byte_closes", "any wrong first signature byte, 1-byte first segment", "malformed => Close at once, no address recorded, never Upgrade", EX, cbmc_args=FS256),
@@ -130,9 +132,9 @@ PA = ["lib/src/protocol/mux/parser.rs"]
 SE = ["lib/src/protocol/mux/serializer.rs"] + PA
 H2 = ["lib/src/protocol/mux/h2.rs"]
 REGISTRY["C15"] = {
-    "technique": "bounded model checking (Kani/CBMC, SAT) of the nom HTTP/2 frame decoder, the frame serializers and the flood-detector step",
+    "technique": "bounded model checking (Kani/CBMC, SAT) of the nom HTTP/2 frame decoder, the frame serializers and the flood-detector step; symbolic execution of the MIR of two stateful guards (slot shrink, CONTINUATION buffer fit) into SMT (z3 + cvc5)",
     "level_text": "CBMC decides, for every frame header (all 9-byte values, all max_frame_size) and every frame body of the listed small sizes with symbolic flags/length/stream id/bytes, that frame_header/frame_body never panic (all slice indexing, arithmetic and sozu's own debug_assert! post-conditions), consume exactly 9 + payload_len bytes or return an error of the RFC 9113 class, and that gen_* outputs parse back; one step of H2FloodDetector from an arbitrary counter state gives a violation exactly when a counter is above its threshold. Bounded, not a proof.",
-    "level_note": "Body buffers are 12..20 bytes; SETTINGS / PRIORITY_UPDATE payload lengths are enumerated (heap vectors); stateful connection behaviour (ConnectionH2 with HashMap/slab/sockets), HPACK decoder internals and the Prioriser are outside the claim.",
+    "level_note": "Engine M adds two stateful guards the stateless decoder harnesses cannot see. Body buffers are 12..20 bytes; SETTINGS / PRIORITY_UPDATE payload lengths are enumerated (heap vectors); stateful connection behaviour (ConnectionH2 with HashMap/slab/sockets), HPACK decoder internals and the Prioriser are outside the claim.",
     "rule": "C15: one harness per frame type / encoder / detector step.",
     "trusted_base": ["std::time::Instant::{now,elapsed} replaced by a monotone stub clock (elapsed is symbolic whole seconds until now() is called, then 0)"],
     "assumptions": ["flood detector pre-state: counters arbitrary but lifetime RST counter < u64::MAX and abusive <= total (the representation invariant; saturation is unreachable before the cap trips)"],
@@ -163,6 +165,8 @@ REGISTRY["C15"] = {
         K("c15::c15_flood_rst_lifetime_step", "arbitrary counters/config, response_started and emitted symbolic; unwind 4",
           "record_rst_lifetime / record_rst_emitted: +1 saturating on exactly the right counters, violation <=> above cap", H2,
           stubs=["std::time::Instant::now", "std::time::Instant::elapsed"], min_covers=2),
+        M("c15_streams_shrink_trailing_only", "Context::shrink_trailing_recycle + its closure, loop unrolled 2x", "self.streams is only mutated by Vec::pop, each right after last() was tested, and the test is `state == StreamState::Recycle` (promoted constant read from the dump)", ["lib/src/protocol/mux/mod.rs", "lib/src/protocol/mux/stream.rs"], prop="c15m", which="shrink"),
+        M("c15_continuation_fits_or_goaway", "whole ConnectionH2::handle_continuation_header_state (40 blocks)", "expect_read is armed only after payload_len <= zero.storage.available_space() was observed; a larger payload ends in goaway()", ["lib/src/protocol/mux/h2.rs"], prop="c15m", which="contfit"),
     ],
 }
 
@@ -197,7 +201,7 @@ CV = ["lib/src/protocol/mux/converter.rs", "lib/src/protocol/mux/serializer.rs",
 TRACING_STUBS = ["tracing::__macro_support::__is_enabled -> false", "tracing_core::callsite::DefaultCallsite::register -> Interest::never", "tracing_core::event::Event::dispatch -> no-op"]
 REGISTRY["C14"] = {
     "engine": "kani+mir",
-    "technique": "bounded model checking (Kani/CBMC, SAT) of the DATA/HEADERS emission arithmetic of H2BlockConverter, stream-id allocation and settings clamps",
+    "technique": "bounded model checking (Kani/CBMC, SAT) of the DATA/HEADERS emission arithmetic of H2BlockConverter, stream-id allocation and settings clamps; per-pass window debit and WINDOW_UPDATE credit bookkeeping over MIR",
     "level_text": "CBMC decides, for every flow-control window (i32), every legal SETTINGS_MAX_FRAME_SIZE and every chunk length up to 2^30, that one DATA emission step of the real H2BlockConverter sends exactly min(len, window, max_frame_size) bytes, never more than either limit, decrements the window by exactly that, stalls iff the window is <= 0; that a header block is split into HEADERS+CONTINUATION frames each <= max_frame_size with END_HEADERS/END_STREAM on the right frames; that next_stream_id issues only legal, increasing, role-parity ids and stays exhausted; that advertised settings are clamped to RFC bounds and the emitted SETTINGS frame parses back. Bounded single steps, not a proof.",
     "level_note": "One converter step at a time; the caller's min(stream, connection) window selection and window bookkeeping in ConnectionH2::write_streams, WINDOW_UPDATE handling, MAX_CONCURRENT_STREAMS enforcement and HPACK table size live in ConnectionH2 (HashMap + sockets) and are outside the claim.",
     "rule": "C14: one harness per emission arm / allocator / clamp.",
@@ -216,6 +220,8 @@ REGISTRY["C14"] = {
         K("c14::c14_connection_config_clamps", "all u32 triples / optional window; unwind 3",
           "advertised connection window in [65535, 2^31-1], max concurrent streams in [1,10000], shrink ratio >= 2; in-range values kept", ["lib/src/protocol/mux/h2.rs"]),
         K("c14::c14_settings_roundtrip", "all H2Settings values; unwind 10", "gen_settings output (57 bytes) parses back to the 8 (id,value) pairs sozu meant", CV + ["lib/src/protocol/mux/h2.rs"], tier="thorough"),
+        M("c14_windows_debited_together", "whole ConnectionH2::write_streams (318 blocks), first pass of the per-stream loop", "after the converter ran, stream window := sat_sub(stream window, consumed) and connection window := sat_sub(connection window, consumed) with the same `consumed`, both inside the loop body and under the same guard", ["lib/src/protocol/mux/h2.rs"], prop="c14", which="debit"),
+        M("c14_pending_credits_leave_when_written", "whole flush_pending_control_frames (107 blocks), loops unrolled once", "pending_window_updates is only mutated through HashMap::remove (a bulk clear only once the peer has hung up); ids are recorded as written only after gen_window_update returned Ok or for a zero increment", ["lib/src/protocol/mux/h2.rs"], prop="c14", which="credits"),
     ],
 }
 
@@ -243,9 +249,9 @@ REGISTRY["C01"] = {
 
 PK = ["lib/src/protocol/mux/pkawa.rs"]
 REGISTRY["C03"] = {
-    "technique": "bounded model checking (Kani/CBMC, SAT) of the H2->H1 header validation predicates against an RFC 9113 section 8.2 reference (differential, one-sided)",
+    "technique": "bounded model checking (Kani/CBMC, SAT) of the H2->H1 header validation predicates against an RFC 9113 section 8.2 reference (differential, one-sided); symbolic execution of the MIR of the trailer callback and of write_regular_header into SMT (z3 + cvc5)",
     "level_text": "CBMC decides, for every header name of 0..4 bytes and value of 0..3 bytes, that sozu's classify_invalid_h2_header rejects whenever a reference predicate written from RFC 9113/9110 says the field is unsafe to serialise as an HTTP/1.1 header line (empty/non-token/uppercase name, NUL/CR/LF/CTL/DEL in value, te != trailers); that the five connection-specific names are caught in every letter case; that the byte predicates equal the RFC character classes on all 256 bytes; that a conflicting Content-Length is refused without side effect; that host is accepted as matching :authority only for the same origin. Bounded, predicates only.",
-    "level_note": "The HTTP/1.1 side (kawa's H1 parser, CL/TE conflicts on H1 frontends), HPACK decoding (loona-hpack), pseudo-header ordering/uniqueness over kawa storage and DATA-vs-Content-Length reconciliation in ConnectionH2 are outside the claim.",
+    "level_note": "Engine M adds the two places the Kani predicates are *used* with a twist: the trailer callback must screen ':'-names itself, and the Content-Length digits must go through the overflow-rejecting std parser. The HTTP/1.1 side (kawa's H1 parser, CL/TE conflicts on H1 frontends), HPACK decoding (loona-hpack), pseudo-header ordering/uniqueness over kawa storage and DATA-vs-Content-Length reconciliation in ConnectionH2 are outside the claim.",
     "rule": "C03: one harness per predicate family.",
     "trusted_base": ["the 20-line reference predicates in kani/src/c03.rs (written from RFC 9110 section 5.6.2 tchar, RFC 9113 section 8.2.1/8.2.2)"],
     "assumptions": ["host/authority without IPv6 literals in the host_matches_authority bound"],
@@ -261,6 +267,8 @@ REGISTRY["C03"] = {
         K("c03::c03_host_authority_same_origin", "host and authority of 0..5 symbolic bytes, no '['; unwind 8",
           "accepted => same host part case-insensitively and never two different explicit ports; strip_port returns a prefix and removes only ':digits'", PK, min_covers=2),
         K("c03::c03_trim_ows_exact", "0..5 symbolic bytes; unwind 8", "result is the inner sub-slice without SP/HTAB at the ends; only whitespace is trimmed", PK),
+        M("c03_trailer_names_screened", "whole per-field callback of handle_trailer (108 blocks); hpack, metrics, kawa pushes uninterpreted", "a field is pushed only after `name.starts_with(b\":\")` answered false; a ':'-name never reaches classify_invalid_h2_header (which skips name validation for such names) and marks the trailer block invalid", PK, prop="c03m", which="trailer_pseudo"),
+        M("c03_content_length_parsed_by_std", "whole write_regular_header + its parse closure", "the length given to set_content_length is the Ok value of str::parse::<usize>; an unrepresentable value (>= 2^64) returns Err (no clamping / wrapping)", PK, prop="c03m", which="cl_parse"),
     ],
 }
 
@@ -313,7 +321,7 @@ _c07claim = ("(a) no store through the listener reference on any path that retur
              "(c) no listener field is written from a differently named patch field")
 REGISTRY["C07"] = {
     "engine": "mir",
-    "technique": "symbolic execution of the MIR of ConfigState::update_*_listener into SMT (z3 + cvc5): write events vs. Err return paths",
+    "technique": "symbolic execution of the MIR of ConfigState::update_*_listener into SMT (z3 + cvc5): write events vs. Err return paths; worker-side add-frontend and listener-type decoding obligations over the same engine",
     "level_text": "For the four private listener-patch functions, every path of the real compiled MIR is encoded (guards merged at joins) with the patch fully symbolic and all callees uninterpreted; z3 and cvc5 both decide that no path returning Err contains a store through the listener reference (validate-then-mutate), that each store copies the same-named patch field and only when it is Some, and that no patch field is dropped. This is the whole function body, not a sample of patches; it is bounded only by loop unrolling (2) and by treating callees as arbitrary.",
     "level_note": "Also run on the worker-side HttpListener / HttpsListener::update_config (stores into self.config). Certificate add/replace partial effects (x509 + nested HashMap), the master's hash_state no-op check and worker-side notify-after-error are outside the claim. Aliasing between the listener reference and other places is assumed absent (it is a fresh get_mut result).",
     "rule": "C07: one obligation per update_*_listener function.",
@@ -333,6 +341,8 @@ REGISTRY["C07"] = {
           self_field="config", self_struct="HttpListener", self_struct_path="lib/src/http.rs", listener_struct="HttpListenerConfig", patch_struct="UpdateHttpListenerConfig", replay_test="c07_worker"),
         M("c07_worker_https_listener_patch_atomic", _c07, "same for HttpsListener::update_config", ["lib/src/https.rs"], prop="c07_atomic", mode="atomic", crate="lib", fn_suffix="::update_config", sig="&mut https::HttpsListener",
           self_field="config", self_struct="HttpsListener", self_struct_path="lib/src/https.rs", listener_struct="HttpsListenerConfig", patch_struct="UpdateHttpsListenerConfig", replay_test="c07_worker"),
+        M("c07_worker_add_frontend_atomic", "HttpProxy::add_http_frontend and HttpsProxy::add_https_frontend, callees uninterpreted", "no method called on the listener through DerefMut (today: set_tags), other than the fallible router insertion itself, lies on a path that returns Err", ["lib/src/http.rs", "lib/src/https.rs"], prop="c07_front", which="worker_add"),
+        M("c07_listener_type_decoded_fallibly", "ConfigState::remove_listener / activate_listener / deactivate_listener", "the request's `proxy` goes through ListenerType::try_from; on Err the function returns Err through `?` and no call / store touches the state", ST, prop="c07_front", which="listener_type"),
     ],
 }
 
@@ -415,7 +425,7 @@ REGISTRY["C02"] = {
 BK = ["lib/src/backends.rs", "lib/src/retry.rs"]
 REGISTRY["C12"] = {
     "engine": "mir",
-    "technique": "symbolic execution of the MIR of the per-backend eligibility predicates and connection counters into SMT (z3 + cvc5)",
+    "technique": "symbolic execution of the MIR of the per-backend eligibility predicates and connection counters into SMT (z3 + cvc5); back-off window arming of ExponentialBackoffPolicy::fail",
     "level_text": "z3 and cvc5 both decide that Backend::can_open is exactly healthy && status == Normal && can_try() == Some(OKAY), that Backend::is_available is exactly healthy && status == Normal && !is_down() (the compared constants are read from the promoted MIR constants), and that one inc_connections / dec_connections step from an arbitrary (status, active_connections) never wraps, changes the count by exactly one only when allowed, never touches a Closed backend, and retires a Closing backend exactly when it reaches zero - an inductive step, so counts return to zero iff increments on Normal equal decrements, for any history; that the three candidate filters are exactly their documented predicates (fail-open never consults health); and that the selection cascade asks primary, then backup only if primary is empty, then fail-open only if both are empty, with exactly one policy call on the first non-empty tier.",
     "level_note": "The backend list as a data structure is not executed (CBMC ran out of memory at 2 backends): the cascade is checked as control flow over uninterpreted tier sets, the filters as predicates of one backend. Load-balancing policies (round robin, Maglev, HRW...), 'the policy returns a member of the set it was given', back-off arithmetic (random_range, Instant) are not claimed.",
     "rule": "C12: one obligation per predicate / counter function.",
@@ -430,6 +440,7 @@ REGISTRY["C12"] = {
         M("c12_candidate_filters", "the three candidate-set closures, all inputs symbolic", "available_backends keeps exactly backends with backup == requested tier && can_open(); the fail-open filter keeps exactly status == Normal && can_try() == Some(OKAY) and never consults health; find_sticky returns the sticky match iff can_open()", BK[:1], prop="c12", which="filters"),
         M("c12_readd_updates_role", "whole BackendList::add_backend; backend fields symbolic", "re-adding an existing (backend_id, address) stores the new backup flag (taken from the re-added backend) and refreshes sticky id and load-balancing parameters; every path inserts or updates", BK[:1], prop="c12", which="readd"),
         M("c12_cascade_skeleton", "whole next_available_backend_with_key; emptiness of each tier symbolic (is_empty consistent on an unchanged vector)", "primary tier asked first (backup=false), backup tier only when it is empty, fail-open set only when both are empty, the policy is asked exactly once on the first non-empty tier, never on an empty one", BK[:1], prop="c12", which="cascade"),
+        M("c12_backoff_window_armed", "whole ExponentialBackoffPolicy::fail; Instant/Duration/rng uninterpreted", "the window test is last_try.elapsed() < wait; a failure outside the window rewrites wait, last_try and current_tries on every path, one inside it writes nothing", BK, prop="c12", which="backoff"),
     ],
 }
 
